@@ -128,6 +128,11 @@ def explicit_combos():
     out = []
     for mask in itertools.product([False, True], repeat=len(KEYS)):
         out.append({k: EXPLICIT_DOMAIN[k] for k, m in zip(KEYS, mask) if m})
+    # an explicit None is a value, not "unset": depth=None / max_seq_len=None must override a non-None default
+    out.append({'depth': None})
+    out.append({'max_seq_len': None})
+    out.append({'depth': None, 'max_seq_len': None, 'width': 20})
+    out.append({'depth': None, 'indent': 2, 'sort_dict_keys': True})
     return out
 
 
